@@ -605,22 +605,22 @@ def run_resolver(case: dict[str, Any]) -> Outcome:
 
 
 def main(chk: Check) -> None:
-    chk.explore("transparency", _transparency_cases(), run_transparency, quick=210, thorough=2400)
-    chk.explore("corruption", st.fixed_dictionaries({"base": _corruptible, "fault": _fault}), run_corruption, quick=270, thorough=4000)
-    chk.explore("resolver", resolver_cases, run_resolver, quick=600, thorough=16000)
+    chk.explore("transparency", _transparency_cases(), run_transparency, quick=420, thorough=2400)
+    chk.explore("corruption", st.fixed_dictionaries({"base": _corruptible, "fault": _fault}), run_corruption, quick=540, thorough=4000)
+    chk.explore("resolver", resolver_cases, run_resolver, quick=1200, thorough=16000)
     chk.explore(
         "entropy",
         st.fixed_dictionaries({"seed": st.binary(min_size=1, max_size=8), "size": st.sampled_from([1000, 70_000, 300_000]),
                                "cfg": st.sampled_from(range(len(CFGS))), "comp": st.sampled_from(COMPS)}),
-        run_entropy, quick=24, thorough=400,
+        run_entropy, quick=48, thorough=400,
     )
     if not chk.quick or chk.replay is not None:
         # the repo's fake_storage service on 127.0.0.1 and the real fetch_url / decompression path
-        chk.explore("loopback", _transparency_cases().map(lambda c: {**c, "upload": False, "loop": True}), run_transparency, quick=1, thorough=800)
+        chk.explore("loopback", _transparency_cases().map(lambda c: {**c, "upload": False, "loop": True}), run_transparency, quick=2, thorough=800)
         chk.explore(
             "loopback_corruption",
             st.fixed_dictionaries({"base": _corruptible.map(lambda c: {**c, "upload": False}), "fault": _fault, "loop": st.just(True)}),
             run_corruption,
-            quick=1,
+            quick=2,
             thorough=1600,
         )
